@@ -5,6 +5,7 @@ use serde_json::{json, Value};
 pub mod c01;
 pub mod c02;
 pub mod c03;
+pub mod c04;
 pub mod c05;
 pub mod c06;
 pub mod c07;
@@ -25,6 +26,7 @@ pub fn lanes_of(id: &str) -> Vec<(&'static str, LaneFn)> {
         "C01" => vec![("routing", c01::routing), ("hostile_ids", c01::hostile_ids), ("abandoned", c01::abandoned)],
         "C02" => vec![("requests", c02::requests), ("modifiers", c02::modifiers)],
         "C03" => vec![("responses", c03::responses), ("helpers", c03::helpers)],
+        "C04" => vec![("cuts", c04::cuts), ("write_errors", c04::write_errors), ("handle_drops", c04::handle_drops)],
         "C05" => vec![("wrap", c05::wrap), ("threads", c05::threads)],
         "C06" => vec![("decoder_prefixes", c06::decoder_prefixes), ("partitions", c06::partitions), ("exhaustive_splits", c06::exhaustive_splits)],
         "C07" => vec![("trees", c07::trees), ("integers", c07::integers), ("nonminimal", c07::nonminimal)],
@@ -63,6 +65,7 @@ pub fn replay(ctx: &Ctx, id: &str, v: &Value) -> Value {
         "C01" => c01::replay(ctx, v),
         "C02" => c02::replay(ctx, v),
         "C03" => c03::replay(ctx, v),
+        "C04" => c04::replay(ctx, v),
         "C05" => c05::replay(ctx, v),
         "C06" => c06::replay(ctx, v),
         "C07" => c07::replay(ctx, v),
